@@ -120,7 +120,9 @@ def one(a):
         xr, wr, _ = s.posterior(resample=True)
         mt = np.sum(wt[:, None] * xt, axis=0)
         mr = np.sum(wr[:, None] * xr, axis=0)
-        extra = dict(var_trim=np.sum(wt[:, None] * (xt - mt) ** 2, axis=0).tolist(), var_res=np.sum(wr[:, None] * (xr - mr) ** 2, axis=0).tolist(),
+        # the weights are functions of the stored log-likelihoods: each must be the likelihood of the sample it is stored with
+        lmis = int(sum(1 for xi, li in zip(x, l) if np.isfinite(li) and abs(float(T["like"](xi)) - float(li)) > 1e-9 * (1 + abs(float(li)))))
+        extra = dict(logl_mismatch=lmis, var_trim=np.sum(wt[:, None] * (xt - mt) ** 2, axis=0).tolist(), var_res=np.sum(wr[:, None] * (xr - mr) ** 2, axis=0).tolist(),
                      mean_res=mr.tolist())
         return dict(ok=True, **extra, logz=float(s.evidence()[0]), mean=m.tolist(), var=v.tolist(),
                     circ=[float(np.sum(w * np.cos(ph))), float(np.sum(w * np.sin(ph)))],
